@@ -99,6 +99,74 @@ def _used_outside(func: ast.AST, names: Set[str], window: List[ast.stmt]) -> boo
     return False
 
 
+def _renamed(program, bodies, log: List[str]) -> None:
+    """A known private helper that is missing while the same class / module has ONE new private function with the same body
+    (docstring aside; `self` dropped in favour of @staticmethod or the reverse) was renamed: it is analysed under its old name."""
+    from .inline import load_known
+
+    known = load_known() or set()
+    for qual, entry in sorted(bodies.items()):
+        if qual in program.functions:
+            continue
+        m = program.modules.get(entry["module"])
+        if m is None:
+            continue
+        cls = program.classes.get(entry["cls"]) if entry.get("cls") else None
+        if entry.get("cls") and cls is None:
+            continue
+        try:
+            kdef = ast.parse(entry["src"]).body[0]
+        except SyntaxError:
+            continue
+        kbody = [ast.dump(x) for x in _body_wo_doc(kdef)]
+        kparams = [a.arg for a in kdef.args.posonlyargs + kdef.args.args]
+        cands = []
+        for fi in program.functions.values():
+            if fi.module is not m or fi.parent is not None or fi.qual in known or not isinstance(fi.node, ast.FunctionDef) or not fi.name.startswith("_") or fi.name.startswith("__"):
+                continue
+            if (cls is None) != (fi.cls is None) or (cls is not None and fi.cls is not cls):
+                continue
+            if [ast.dump(x) for x in _body_wo_doc(fi.node)] != kbody:
+                continue
+            fparams = [a.arg for a in fi.node.args.posonlyargs + fi.node.args.args]
+            if fparams == kparams or (kparams[:1] == ["self"] and fparams == kparams[1:] and any(isinstance(d, ast.Name) and d.id == "staticmethod" for d in fi.node.decorator_list)):
+                cands.append(fi)
+        if len(cands) != 1:
+            continue
+        fi = cands[0]
+        new, old = fi.name, kdef.name
+        fparams = [a.arg for a in fi.node.args.posonlyargs + fi.node.args.args]
+        if fparams != kparams:
+            fi.node.decorator_list = [d for d in fi.node.decorator_list if not (isinstance(d, ast.Name) and d.id == "staticmethod")]
+            fi.node.args.args.insert(0, ast.arg(arg="self"))
+        fi.node.name = old
+
+        class R(ast.NodeTransformer):
+            def visit_Attribute(self, node):
+                self.generic_visit(node)
+                if node.attr == new:
+                    node.attr = old
+                return node
+
+            def visit_Name(self, node):
+                if node.id == new:
+                    node.id = old
+                return node
+
+        R().visit(m.tree)
+        ast.fix_missing_locations(m.tree)
+        del program.functions[fi.qual]
+        if cls is not None:
+            cls.methods.pop(new, None)
+            cls.methods[old] = fi
+        else:
+            m.functions.pop(new, None)
+            m.functions[old] = fi
+        fi.qual = qual
+        program.functions[qual] = fi
+        log.append(f"{qual}: the new private function `{new}` has the body of the known helper `{old}`: a rename, analysed under the old name")
+
+
 def apply(program) -> List[str]:
     bodies = load_bodies()
     log: List[str] = []
@@ -106,8 +174,13 @@ def apply(program) -> List[str]:
         return log
     from .loader import FuncInfo
 
+    try:
+        _renamed(program, bodies, log)
+    except Exception as e:  # a failed rename detection must not take the analysis down
+        log.append(f"rename detection skipped: {type(e).__name__}: {e}")
+
     for qual, entry in sorted(bodies.items()):
-        if qual in program.functions:
+        if qual in program.functions or not entry.get("restorable", True):
             continue
         m = program.modules.get(entry["module"])
         if m is None:
